@@ -15,6 +15,8 @@
 package event
 
 import (
+	"io"
+
 	"github.com/emitter-io/emitter/internal/message"
 	"github.com/emitter-io/emitter/internal/security"
 	"github.com/kelindar/binary"
@@ -79,8 +81,12 @@ func decodeSubscription(k string, v []byte) (e Subscription, err error) {
 		err = binary.Unmarshal(v, &e)
 	}
 
-	// Decode the key
+	// Decode the key, which starts with the peer and the connection
 	buffer := binary.ToBytes(k)
+	if len(buffer) < 16 {
+		return e, io.ErrUnexpectedEOF
+	}
+
 	e.Peer = binary.BigEndian.Uint64(buffer[0:8])
 	e.Conn = security.ID(binary.BigEndian.Uint64(buffer[8:16]))
 	e.Ssid = make(message.Ssid, (len(buffer)-16)/4)
@@ -156,8 +162,12 @@ func decodeConnection(k string, v []byte) (e Connection, err error) {
 		err = binary.Unmarshal(v, &e)
 	}
 
-	// Decode the key
+	// Decode the key, which starts with the peer and the connection
 	buffer := binary.ToBytes(k)
+	if len(buffer) < 16 {
+		return e, io.ErrUnexpectedEOF
+	}
+
 	e.Peer = binary.BigEndian.Uint64(buffer[0:8])
 	e.Conn = security.ID(binary.BigEndian.Uint64(buffer[8:16]))
 	return e, err
